@@ -634,6 +634,16 @@ func (in *inst) swaps(f *ast.File) {
 		if !ok {
 			return true
 		}
+		if se, ok := ce.Fun.(*ast.SelectorExpr); ok && se.Sel.Name == "WriteToUDP" {
+			if sl := in.info.Selections[se]; sl != nil && sl.Kind() == types.MethodVal {
+				if fn, ok := sl.Obj().(*types.Func); ok && fn.Pkg() != nil && fn.Pkg().Path() == "net" {
+					ce.Fun = sel("UDPWriteTo")
+					ce.Args = append([]ast.Expr{se.X}, ce.Args...)
+					in.used = true
+					return true
+				}
+			}
+		}
 		p, n := in.pkgFunc(ce.Fun)
 		switch {
 		case p == "time" && n == "AfterFunc":
